@@ -253,7 +253,9 @@ def gen_method_context():
         blocks = ['from math import *', 'global t', 'nonlocal t', 'return', 'return 5', 'x = 1\nif x:\n    return',
                   'yield', 'yield t', 'await t', 'global self', 'del t', 'import math', 'from math import pi',
                   'class K:\n    pass', 'def f():\n    return 1', 'lambda: (yield)', 'global Y', '__class__', 'super()',
-                  'break', 'continue', 'for i in ():\n    break', 'while False:\n    continue', 'async def g():\n    await t']
+                  'break', 'continue', 'for i in ():\n    break', 'while False:\n    continue', 'async def g():\n    await t',
+                  # indentation that is only wrong (or only right) relative to the surrounding method body
+                  '   x = 1', ' pass', '\tx = 1', 'if t:\n  x = 1\nelse:\n      x = 2', 'x = 1\n  y = 2', '  x = 1\n  y = 2']
         for blk in blocks:
             yield {'s': f'```\n{blk}\n```'}
             yield {'s': f'Y = X\n```\n{blk}\n```'}
